@@ -10,8 +10,10 @@ use crate::common::*;
 
 // ---------------------------------------------------------------- fuzzer byte strings (W2)
 
-pub const HOSTILE_DOUBLES: [f64; 12] = [
+pub const HOSTILE_DOUBLES: [f64; 14] = [
     f64::NAN,
+    f64::from_bits(0x7ff8_0000_0000_0007),
+    f64::from_bits(0xffff_ffff_ffff_ffff),
     f64::INFINITY,
     f64::NEG_INFINITY,
     -1.0,
@@ -204,9 +206,10 @@ pub fn matrix_case(i: usize, seed: u64, sp: &Space) -> Config {
         // a quarter of the cases run on a generator that already produced another pickle
         warmup: if rng.below(4) == 0 { Some(rng.next() >> 8) } else { None },
         // builder-call order (0..2) / Generator::default() construction (3, 4) / built for another
-        // protocol and retargeted through state.version (5, 6); bit 16 = mutator
+        // protocol and retargeted through state.version (5, 6); bit 8 = every setter first called with
+        // another value; bit 16 = mutator
         // objects created with the opposite unsafe flag
-        order: rng.below(7) as u8 | if rng.below(100) < sp.flip_share { 16 } else { 0 },
+        order: rng.below(7) as u8 | if rng.below(100) < sp.flip_share { 16 } else { 0 } | if rng.below(4) == 0 { 8 } else { 0 },
         bufsize: match rng.below(12) {
             0 => Some(256),
             1 => Some(1024),
